@@ -53,77 +53,7 @@ func runC18(c *Ctx) {
 
 	// ---- R2: rules are read-only on the tree and on the walker
 	r2 := c.Rule("R2", "no function of package rules writes a field of an ast node or of the Walker", 40)
-	isTreeType := func(t types.Type) bool {
-		if pt, ok := t.Underlying().(*types.Pointer); ok {
-			t = pt.Elem()
-		}
-		n, _ := types.Unalias(t).(*types.Named)
-		if n == nil || n.Obj().Pkg() == nil {
-			return false
-		}
-		if _, ok := n.Underlying().(*types.Struct); !ok {
-			return false
-		}
-		path := n.Obj().Pkg().Path()
-		return strings.HasSuffix(path, "/ast") || (strings.HasSuffix(path, "/validator") && n.Obj().Name() == "Walker")
-	}
-	treeReason := func(v ssa.Value) string {
-		for _, ch := range chase(v) {
-			fresh := ch.root != nil && isFresh(ch.root)
-			for i, t := range ch.types {
-				if fresh && i == len(ch.types)-1 {
-					continue
-				}
-				if isTreeType(t) {
-					return types.TypeString(t, shortQual)
-				}
-			}
-		}
-		return ""
-	}
-	for fn := range scope {
-		bad := false
-		for _, w := range directWrites(fn) {
-			if t := treeReason(w.target); t != "" {
-				bad = true
-				r2.Fail(w.in.Pos(), p.FuncName(fn), w.kind+" "+describeTarget(w.target), fmt.Sprintf("a rule %ss %s, reached through a value of type %s: rules must only read the document, schema and walker (another rule, or a second validation, would observe the change)", w.kind, describeTarget(w.target), t))
-			}
-		}
-		allInstrs(fn, func(in ssa.Instruction) {
-			ci, ok := in.(ssa.CallInstruction)
-			if !ok {
-				return
-			}
-			if _, isB := ci.Common().Value.(*ssa.Builtin); isB {
-				return
-			}
-			for _, callee := range e.callees(ci) {
-				cs := e.sums[callee]
-				if cs == nil {
-					continue
-				}
-				// observer registration appends to the Events lists: that is the one sanctioned write
-				if strings.HasPrefix(p.FuncName(callee), "validator.(*Events).On") {
-					continue
-				}
-				off := 0
-				if ci.Common().IsInvoke() {
-					off = 1
-				}
-				for i, a := range ci.Common().Args {
-					if w, ok := cs.params[i+off]; ok {
-						if t := treeReason(a); t != "" {
-							bad = true
-							r2.Fail(in.Pos(), p.FuncName(fn), "call "+p.FuncName(callee)+" arg "+describeTarget(a), fmt.Sprintf("a rule passes %s (type %s) to %s, which writes through it (%s)", describeTarget(a), t, p.FuncName(callee), anyOf(w)))
-						}
-					}
-				}
-			}
-		})
-		if !bad {
-			r2.OK(p.FuncName(fn), "writes only its own state")
-		}
-	}
+	treeWrites(c, e, scope, r2, "a rule")
 
 	c18Validate(c)
 	c18Twins(c)
@@ -839,4 +769,82 @@ func suggestionOnly(fd *ast.FuncDecl, as *ast.AssignStmt, info *types.Info, flag
 		}
 	}
 	return true
+}
+
+// treeWrites: no function of scope writes a field of an ast node or of the Walker — directly, or by handing a
+// tree value to a callee whose summary says it writes through that parameter.
+func treeWrites(c *Ctx, e *effects, scope map[*ssa.Function]bool, r *RuleResult, who string) {
+	p := c.P
+	isTreeType := func(t types.Type) bool {
+		if pt, ok := t.Underlying().(*types.Pointer); ok {
+			t = pt.Elem()
+		}
+		n, _ := types.Unalias(t).(*types.Named)
+		if n == nil || n.Obj().Pkg() == nil {
+			return false
+		}
+		if _, ok := n.Underlying().(*types.Struct); !ok {
+			return false
+		}
+		path := n.Obj().Pkg().Path()
+		return strings.HasSuffix(path, "/ast") || (strings.HasSuffix(path, "/validator") && n.Obj().Name() == "Walker")
+	}
+	treeReason := func(v ssa.Value) string {
+		for _, ch := range chase(v) {
+			fresh := ch.root != nil && isFresh(ch.root)
+			for i, t := range ch.types {
+				if fresh && i == len(ch.types)-1 {
+					continue
+				}
+				if isTreeType(t) {
+					return types.TypeString(t, shortQual)
+				}
+			}
+		}
+		return ""
+	}
+	for fn := range scope {
+		bad := false
+		for _, w := range directWrites(fn) {
+			if t := treeReason(w.target); t != "" {
+				bad = true
+				r.Fail(w.in.Pos(), p.FuncName(fn), w.kind+" "+describeTarget(w.target), fmt.Sprintf(who+" %ss %s, reached through a value of type %s: it must only read the document, schema and walker (another rule, a second validation or a second call would observe the change)", w.kind, describeTarget(w.target), t))
+			}
+		}
+		allInstrs(fn, func(in ssa.Instruction) {
+			ci, ok := in.(ssa.CallInstruction)
+			if !ok {
+				return
+			}
+			if _, isB := ci.Common().Value.(*ssa.Builtin); isB {
+				return
+			}
+			for _, callee := range e.callees(ci) {
+				cs := e.sums[callee]
+				if cs == nil {
+					continue
+				}
+				// observer registration appends to the Events lists: that is the one sanctioned write
+				if strings.HasPrefix(p.FuncName(callee), "validator.(*Events).On") {
+					continue
+				}
+				off := 0
+				if ci.Common().IsInvoke() {
+					off = 1
+				}
+				for i, a := range ci.Common().Args {
+					if w, ok := cs.params[i+off]; ok {
+						if t := treeReason(a); t != "" {
+							bad = true
+							r.Fail(in.Pos(), p.FuncName(fn), "call "+p.FuncName(callee)+" arg "+describeTarget(a), fmt.Sprintf(who+" passes %s (type %s) to %s, which writes through it (%s)", describeTarget(a), t, p.FuncName(callee), anyOf(w)))
+						}
+					}
+				}
+			}
+		})
+		if !bad {
+			r.OK(p.FuncName(fn), "writes only its own state")
+		}
+	}
+
 }
